@@ -334,8 +334,11 @@ def rescale(img, scale, shape=None, mask=None, order=3, mode='nearest',
 
     xx, yy = np.meshgrid(x, y)
 
+    # the mask removes interpolation artifacts away from the data, it does not
+    # weight the data: it is binary after rescaling as it was before (every
+    # sample the data contribute to is kept as interpolated)
     mask = map_coordinates(mask, [yy, xx], order=1, mode='nearest')
-    mask[mask < np.finfo(mask.dtype).eps] = 0
+    mask = (mask >= np.finfo(mask.dtype).eps).astype(mask.dtype)
 
     if np.iscomplexobj(img):
         out = np.zeros(shape, dtype=np.complex128)
